@@ -110,7 +110,19 @@ static void family(rng& g, bool thorough, bool dists)
         c.dists = dists;
         c.plan = make_plan(g, 97);
         c.md0 = fam == 1; // a map without coordinates is still asked for them (it is told the channel and the random numbers that way)
+        c.nested = fam == 2 || fam == 4; // the integrand computes a nested integral with the same integrator and numeric type
         run_mc<T>(c, make_engine(g, 223), w, iters);
+    }
+    // several iterations in one call of the driver; the first channel never contributes and is switched off by the refinement after the first
+    // iteration (minimum weight zero): from then on it is neither selected nor listed as enabled
+    {
+        call_ctx<T> c;
+        c.cfg.kind = "mc";
+        c.cfg.d = 1;
+        c.cfg.densfam = 3;
+        c.plan = make_plan(g, 53);
+        for (auto& v : c.plan) { if (v.f == 0) v.f = 1; v.tag = "fin"; v.wreq = true; }
+        run_mc_multi<T>(c, make_engine(g, 311), std::vector<T>{T(1), T(1), T(2)}, std::vector<std::size_t>{30, 20, 20});
     }
 }
 
